@@ -250,6 +250,12 @@ class PythonExpr(TalesExpr):
         # Some errors are only found when the tree is compiled (a
         # repeated keyword argument, ``yield`` outside a function).
         compile(tree, '<string>', 'eval')
+        # The variables of a template are not Python variables: an
+        # expression cannot bind one.
+        for node in ast.walk(tree):
+            if isinstance(node, ast.NamedExpr):
+                raise SyntaxError(
+                    "assignment expressions are not supported")
         return tree.body
 
     def translate(self, expression, target):
